@@ -7,6 +7,7 @@ CONSTANTS
   Cap = 2
   Buffered = TRUE
   Gaps = "overlap"
+  FlushOnErr = TRUE
   KeepData = FALSE
   ExternalProg <- TraceProg
   Emit = FALSE
